@@ -390,7 +390,7 @@ def run_project(backend, names, res, isolate=True):
             res.exclude('file system refuses the name')
             return
         log = os.path.join(root, 'log')
-        extra = proj.stub_toolchain_env(log)
+        extra = proj.stub_toolchain_env(log, backend)
         extra.update({'CP': 'vwrap-cp -f', 'VSTUB_ENVKEYS': 'NONE'})
         env = core.base_env(extra)
         src_before = proj.snapshot(src)
@@ -536,7 +536,7 @@ def run_rootpath(backend, name, res):
             res.exclude('file system refuses the name')
             return
         log = os.path.join(base, 'log')
-        extra = proj.stub_toolchain_env(log)
+        extra = proj.stub_toolchain_env(log, backend)
         extra.update({'CP': 'vwrap-cp -f', 'VSTUB_ENVKEYS': 'NONE'})
         env = core.base_env(extra)
         res.ev('role:rootpath')
